@@ -334,6 +334,12 @@ func (t *largeHuffCodeTable) encodeLongCodes(ctx *dynamicHeaderReader, codeListL
 			}
 		}
 
+		// unassigned long codes of an incomplete code must be invalid, not
+		// whatever an earlier block left in these slots
+		for x := longCodeLookupLength; x < longCodeLookupLength+uint32(1<<(maxLen-litLenLookupBits)); x++ {
+			t.longCodeLookup[x] = 0
+		}
+
 		for j := 0; j < int(tempCodeLength); j++ {
 			sym1Index := uint32(tempCodeList[j])
 			sym1 := indexToSym(sym1Index)
